@@ -774,7 +774,7 @@ def checkInv (hash : Nat → Nat) (st : St) : Option String :=
     (if (List.range (2 ^ sh.lvl)).all (fun i => sh.bkt (2 ^ sh.lvl + i) == .flagged) then [] else ["top"]) ++
     (if bs.all (fun b => b < 2 || !(sh.bkt b).isChain || (sh.bkt (parentOf b)).isChain) then [] else ["closed"]) ++
     (if bs.all (fun b => (sh.chainOf b).all (fun n => homeIsB sh (hash n.key) b)) then [] else ["home"]) ++
-    (if bs.all (fun b => ((sh.chainOf b).map (·.key)).eraseDups.length == (sh.chainOf b).length) then [] else ["nodup"]) ++
+    (if bs.all (fun b => let ks := ((sh.chainOf b).map (·.key)).toArray.qsort (· < ·); (List.range (ks.size - 1)).all (fun i => ks[i]! != ks[i + 1]!)) then [] else ["nodup"]) ++
     (if bs.all (fun b => (sh.blk b).wfB) then [] else ["bwf"]) ++
     (if bs.all (fun b => match sh.bkt b with | .pending t => (sh.blk b).w == some t | _ => true) then [] else ["pend"]) ++
     (if bs.all (fun b => (sh.chainOf b).all (fun n => n.id < sh.nextId && (sh.elk n).wfB && !sh.freed n && sh.unlinker n == none)) then [] else ["fresh/ewf/linkedOk"]) ++
